@@ -249,3 +249,8 @@ Definition textbook (n : mname) (o : opts) : metric :=
   | MAsym => mkmetric (FSimple BPlain (PAsym (o_thr o) (o_left o) (o_right o)) Mean) false
   | RelLoss => mkmetric (FRelLoss (o_rl_k o) (o_rl_a o)) false
   end.
+
+(* documented defaults of the option parameters (the same for every function that has them):
+   symmetric=True, square_root=False, sp=1, asymmetric_threshold=0.0, left='squared',
+   right='absolute', relative_loss_function=mean_absolute_error *)
+Definition documented_defaults (n : mname) : opts := mkopts true false 1%nat 0 PSq PAbs PAbs Mean.
